@@ -49,6 +49,7 @@ type c11Cfg struct {
 	Domain  string // none | parent | parent-dot
 	Path    string // cookie path
 	Hosts   [][2]string // (login host, sign-out host)
+	Domains []string    // configured cookie domains
 	Fronted bool
 	p       *vfProxy
 }
@@ -89,8 +90,11 @@ func c11Configs(run *vfRun, w *vfWorld) []*c11Cfg {
 	}
 	for _, store := range []string{"cookie", "redis"} {
 		for _, name := range names[store] {
-			for _, dom := range []string{"none", "parent", "parent-dot"} {
+			for _, dom := range []string{"none", "parent", "parent-dot", "two"} {
 				if dom == "parent-dot" && !(run.Env.Thorough() && (name == "_oauth2_proxy" || len(name) == 256)) {
+					continue
+				}
+				if dom == "two" && !(name == "_oauth2_proxy" || (len(name) == 256 && (store == "cookie" || run.Env.Thorough()))) {
 					continue
 				}
 				for _, cpath := range []string{"/", "/app/"} {
@@ -106,6 +110,12 @@ func c11Configs(run *vfRun, w *vfWorld) []*c11Cfg {
 						c.Flags = append(c.Flags, "--cookie-domain=example.test")
 						c.Hosts = [][2]string{{"proxy.example.test", "proxy.example.test"}, {"example.test", "example.test"}, {"deep.proxy.example.test:8443", "deep.proxy.example.test:8443"},
 							{"a.example.test", "b.example.test"}, {"proxy.example.test", "deep.proxy.example.test"}}
+					case "two":
+						// several cookie domains: "the longest domain matching the request's host will be used"
+						c.Flags = append(c.Flags, "--cookie-domain=proxy.example.test", "--cookie-domain=example.test")
+						c.Domains = []string{"proxy.example.test", "example.test"}
+						c.Hosts = [][2]string{{"other.example.test", "proxy.example.test"}, {"proxy.example.test", "proxy.example.test"}, {"other.example.test", "b.example.test"},
+							{"deep.proxy.example.test", "proxy.example.test:8443"}, {"example.test", "a.proxy.example.test"}, {"other.example.test:8443", "other.example.test:8443"}}
 					case "parent-dot":
 						c.Flags = append(c.Flags, "--cookie-domain=.example.test")
 						c.Hosts = [][2]string{{"proxy.example.test", "proxy.example.test"}, {"a.example.test", "b.a.example.test:8443"}}
@@ -236,7 +246,7 @@ func c11Histories(run *vfRun, cfg *c11Cfg, ci int) []c11Hist {
 			mk(p0, 1, []int{0, 1}, []int{+3, -3})
 		}
 	}
-	for k := 0; k < run.Env.Pick(4, 40); k++ {
+	for k := 0; k < run.Env.Pick(4, 160); k++ {
 		kk := rng.Intn(4)
 		var ra, dir []int
 		for r := 0; r <= kk; r++ {
@@ -306,6 +316,26 @@ func c11Describe(cs []*vfCookie) []string {
 		out = append(out, fmt.Sprintf("%s (domain %s, path %s, %d bytes)", c11Short(c.Name), d, c.Path, len(c.Value)))
 	}
 	return out
+}
+
+// c11RefDomain: documented rule — the longest configured domain matching the request's host (port ignored), else the shortest.
+func c11RefDomain(domains []string, hostport string) string {
+	host := vfHostOnly(hostport)
+	best := ""
+	for _, d := range domains {
+		dd := strings.TrimPrefix(d, ".")
+		if (host == dd || strings.HasSuffix(host, "."+dd)) && len(d) > len(best) {
+			best = d
+		}
+	}
+	if best == "" {
+		for _, d := range domains {
+			if best == "" || len(d) < len(best) {
+				best = d
+			}
+		}
+	}
+	return best
 }
 
 type c11Runner struct {
@@ -476,6 +506,9 @@ func (r *c11Runner) one(cfg *c11Cfg, h c11Hist) {
 	dc := cfg.Domain + "," + cfg.Path
 	if h.HostLogin != h.HostOut {
 		dc += ",cross-host"
+		if len(cfg.Domains) >= 2 && c11RefDomain(cfg.Domains, h.HostLogin) != c11RefDomain(cfg.Domains, h.HostOut) {
+			dc += ",other-domain-selected"
+		}
 	}
 	cell := fmt.Sprintf("%s|parts=%d|refresh=%s|%s|%s|name=%s", cfg.Store, len(presented), h.refreshClass(), dc, h.Method, c11NameClass(cfg.Name))
 	if h.Fault != "" {
@@ -554,6 +587,19 @@ func (r *c11Runner) one(cfg *c11Cfg, h c11Hist) {
 		}
 		if len(survivors) > 0 {
 			sig := "c11:presented-session-cookie-survives-sign-out"
+			if d1, d2 := c11RefDomain(cfg.Domains, h.HostLogin), c11RefDomain(cfg.Domains, h.HostOut); len(cfg.Domains) >= 2 && h.HostLogin != h.HostOut && d1 != d2 {
+				// known finding, kept tight: several cookie domains, the cookies were set while addressing a host for which the
+				// domain rule selects d1, sign-out addressed a host for which it selects d2 != d1, and every survivor carries d1
+				all := true
+				for _, c := range survivors {
+					if c.HostOnly || c.Domain != strings.TrimPrefix(d1, ".") {
+						all = false
+					}
+				}
+				if all {
+					sig = "c11:multi-domain-sign-out-deletes-under-other-domain"
+				}
+			}
 			run.Violation(sig, fmt.Sprintf("[%s] %d of %d presented session cookie(s) are still in the jar after the sign-out response: %v", cfg.Label, len(survivors), len(presented), c11Describe(survivors)),
 				detail(map[string]interface{}{"presented": c11Describe(presented), "survivors": c11Describe(survivors), "set_cookie": c11Lines(so.SetCookies())}))
 		}
@@ -644,7 +690,7 @@ func TestVerif_C11(t *testing.T) {
 	run := vfNewRun(t, "C11", "exploration")
 	run.SetRule("histories login -> k in 0..3 authenticated requests (with refreshes that grow / shrink the ID token, also on the sign-out request itself) -> sign-out (GET / POST, rd none / relative / foreign) -> " +
 		"replay of every archived cookie alone, of each generation together and of the final jar on <prefix>/userinfo and a protected path; " +
-		"stores cookie and Redis; cookie-domain none / parent (login and sign-out hosts exact, sub-domain, with port, different hosts under the parent); cookie-path / and /app/; " +
+		"stores cookie and Redis; cookie-domain none / parent / two domains (login and sign-out hosts exact, sub-domain, with port, different hosts under the parent, hosts for which different configured domains are selected); cookie-path / and /app/; " +
 		"cookie names default, 255, 256 characters and regexp metacharacters; sessions of 1..4+ cookies; Redis DEL failing through the RESP front (error before effect, dropped connection, nil reply, effect then error / drop). " +
 		"cell = (store, session cookies presented at sign-out, refresh in history, domain/path configuration, method, name class[, fault]); non-trivial = every history (each ends in a judged sign-out)")
 	run.Assume("the browser follows RFC 6265 (a deletion only hits a cookie of the same name, domain and path)",
